@@ -238,11 +238,12 @@ class World:
             self.ctx.prove(was_open, "C05 cancelling a closed order fails")
         return True
 
-    def create_loan(self, name, symbol=None, amount=None):
+    def create_loan(self, name, symbol=None, amount=None, extra_decimals=0):
         ctx = self.ctx
         symbol = symbol or ctx.pick(name + "_sym", self.symbols)
         if amount is None:
-            amount = ctx.dec(name + "_amt", self.prec[symbol], lo=1, hi=10 ** 10)
+            # (extra_decimals > 0: a loan amount finer than the symbol's precision)
+            amount = ctx.dec(name + "_amt", self.prec[symbol] + extra_decimals, lo=1, hi=10 ** 10)
         pre = self.snapshot()
         try:
             info = run(self.e.create_loan(symbol, amount))
@@ -439,7 +440,9 @@ class World:
                         ctx.prove(self.eq_info(i, prev), "C05 a closed order never changes again [%s]" % tag)
                     elif not i.is_open and bar_obj is None and not st.get("cancel_requested"):
                         ctx.prove(False, "C05 an order closes only by fill, cancellation or fill-or-kill [%s]" % tag)
-                if st["kind"] in ("market", "stop") and st["bars_seen"] >= 1:
+                seen = st["bars_seen"] + (1 if (bar_obj is not None and st["pair"] == bar_obj.pair and
+                                                bar_pre[oid].is_open) else 0)
+                if st["kind"] in ("market", "stop") and seen >= 1:
                     ctx.prove(not i.is_open, "C05 market/stop orders are closed after the first bar of their pair "
                                              "[%s]" % tag)
                     ctx.prove(Or(i.amount_filled == 0, i.amount_filled == i.amount),
